@@ -1455,3 +1455,107 @@ theorem isotope_key {b : Base} {s : State} (hs : Inv b s) {t x : String} {i : Na
       | ion _ _ => simp [ho] at h
 
 end PtCore
+
+namespace PtCore
+
+/-! ## the symbol / name / string routes lead to the element with that atomic number -/
+
+theorem row_of_symbol {b : Base} (hsym : (b.map (·.symbol)).Nodup) {r r' : BaseRow} (hr : r ∈ b) (hr' : r' ∈ b)
+    (h : r'.symbol = r.symbol) : r' = r := by
+  induction b with
+  | nil => cases hr
+  | cons x xs ih =>
+    have hnd : x.symbol ∉ xs.map (·.symbol) ∧ (xs.map (·.symbol)).Nodup := List.nodup_cons.mp hsym
+    rcases List.mem_cons.mp hr with rfl | hr1 <;> rcases List.mem_cons.mp hr' with rfl | hr1'
+    · rfl
+    · exact absurd (List.mem_map.mpr ⟨r', hr1', h⟩) hnd.1
+    · exact absurd (List.mem_map.mpr ⟨r, hr1, h.symm⟩) hnd.1
+    · exact ih hnd.2 hr1 hr1'
+
+theorem row_of_name {b : Base} (hnm : (b.map (·.name)).Nodup) {r r' : BaseRow} (hr : r ∈ b) (hr' : r' ∈ b)
+    (h : r'.name = r.name) : r' = r := by
+  induction b with
+  | nil => cases hr
+  | cons x xs ih =>
+    have hnd : x.name ∉ xs.map (·.name) ∧ (xs.map (·.name)).Nodup := List.nodup_cons.mp hnm
+    rcases List.mem_cons.mp hr with rfl | hr1 <;> rcases List.mem_cons.mp hr' with rfl | hr1'
+    · rfl
+    · exact absurd (List.mem_map.mpr ⟨r', hr1', h⟩) hnd.1
+    · exact absurd (List.mem_map.mpr ⟨r, hr1, h.symm⟩) hnd.1
+    · exact ih hnd.2 hr1 hr1'
+
+/-- the attribute named by an element's symbol holds the element object with that number -/
+theorem elem_of_attr {b : Base} {s : State} (hs : Inv b s) (hsym : (b.map (·.symbol)).Nodup)
+    (hdt : DTFree b) {t : String} {r : BaseRow} (hr : r ∈ b) {i : Nat}
+    (h : s.attrs.get? (t, r.symbol) = some i) : s.obj i = some (.element t r.z) := by
+  rcases hs.attrSound t r.symbol i h with ⟨z, r', ho, hrow, hsy⟩ | ⟨hh, a, z, nm, _, _, hal⟩
+  · have := row_of_symbol hsym hr (row?_mem hrow) hsy
+    subst this
+    have hz : r'.z = z := by
+      have := List.find?_some hrow
+      simpa using this
+    rw [hz]; exact ho
+  · rcases hs.aliasVals i _ hal with hp | hp
+    · exact absurd (congrArg Prod.fst hp) (hdt r hr).1
+    · exact absurd (congrArg Prod.fst hp) (hdt r hr).2
+
+/-- `table.name(r.name)` returns the element object with r's number -/
+theorem elem_of_name {b : Base} {s : State} (hs : Inv b s) (hdt : DTFree b)
+    (hnm : ((b.map (·.name)) ++ ["deuterium", "tritium"]).Nodup) {t : String} {r : BaseRow} (hr : r ∈ b)
+    {i : Nat} {s' : State} (h : step b s (.name t r.name) = (s', .obj i)) :
+    s.obj i = some (.element t r.z) := by
+  have hnm1 : (b.map (·.name)).Nodup := (List.nodup_append.mp hnm).1
+  have hnotDT : r.name ≠ "deuterium" ∧ r.name ≠ "tritium" := by
+    have hdisj := (List.nodup_append.mp hnm).2.2
+    have hmem : r.name ∈ b.map (·.name) := List.mem_map.mpr ⟨r, hr, rfl⟩
+    exact ⟨fun hh => hdisj _ hmem _ (by simp) hh, fun hh => hdisj _ hmem _ (by simp) hh⟩
+  simp only [step] at h
+  split at h
+  · next zi hf =>
+    obtain ⟨_, hi⟩ := Prod.mk.inj h
+    cases hi
+    have hmem := List.mem_of_find?_eq_some hf
+    have hp := List.find?_some hf
+    have hg := ((sortedElems_spec hs t).2 zi.1 zi.2).mp hmem
+    have ho := hs.elemSound _ _ _ hg
+    simp only [decide_eq_true_eq] at hp
+    cases hrow : b.row? zi.1 with
+    | none => simp [hrow] at hp
+    | some r' =>
+      simp only [hrow, Option.map_some, Option.some.injEq] at hp
+      have := row_of_name hnm1 hr (row?_mem hrow) hp
+      subst this
+      have hz : r'.z = zi.1 := by
+        have := List.find?_some hrow
+        simpa using this
+      rw [hz]; exact ho
+  · exfalso
+    have via : ∀ k, (k = "D" ∨ k = "T") → ∀ j,
+        (match s.attrs.get? (t, k) with
+          | some i => match s.alias.get? i with
+            | some (_, nm) => if nm = r.name then some i else none
+            | none => none
+          | none => none) = some j → False := by
+      intro k _ j hj
+      cases ha : s.attrs.get? (t, k) with
+      | none => simp [ha] at hj
+      | some i0 =>
+        simp only [ha] at hj
+        cases hal : s.alias.get? i0 with
+        | none => simp [hal] at hj
+        | some pr =>
+          obtain ⟨sy, nm⟩ := pr
+          simp only [hal] at hj
+          split at hj
+          · next hnmx =>
+            rcases hs.aliasVals i0 _ hal with hp | hp
+            · exact hnotDT.1 (by rw [← hnmx]; exact congrArg Prod.snd hp)
+            · exact hnotDT.2 (by rw [← hnmx]; exact congrArg Prod.snd hp)
+          · cases hj
+    split at h
+    · next j hj => exact via "D" (.inl rfl) _ hj
+    · split at h
+      · next j hj => exact via "T" (.inr rfl) _ hj
+      · cases h
+
+end PtCore
